@@ -132,9 +132,10 @@ impl<'a> World<'a> {
             Op::OpenFile { mode, .. } => *mode % 6 == 0,
             _ => false,
         };
+        let mut newly_relaxed = false;
         if !read_only_op {
             if let Some(k) = involved {
-                self.relax.insert(k);
+                newly_relaxed = self.relax.insert(k);
                 if let Some(d) = self.vols[k.0].dirs.get_mut(&k.1) {
                     d.touched = true;
                 }
@@ -246,6 +247,15 @@ impl<'a> World<'a> {
             match r {
                 crate::exec::Got::Panic(p) => self.violate("C11", "handle-unusable-after-fault", "file:close", p.msg),
                 crate::exec::Got::Err(e) if !relaxed => self.violate("C11", "close-failed-after-fault", "file", format!("{:?}", e)),
+                crate::exec::Got::Ok(_) => {
+                    // a flush failed, every write before it had succeeded, and now the close of that file has
+                    // succeeded on a healthy device: the medium has to hold the file (C02's clause; the relaxation
+                    // for "the object of the failed call" ends here)
+                    if newly_relaxed && matches!(op, Op::Flush { .. }) && involved == Some((fh.vol, fh.dir, fh.name)) {
+                        self.relax.remove(&(fh.vol, fh.dir, fh.name));
+                        self.probes.hit("file_of_a_failed_flush_closed_and_judged");
+                    }
+                }
                 _ => {}
             }
             let r2 = crate::exec::got(self.call(|f| f.close_file(h, 0)));
@@ -387,7 +397,7 @@ pub fn fault_enumerate(sc: &Scenario, reference: &FaultRun, budget: usize, seed:
         if r.fired == 0 {
             out.probes.hit("fault_point_not_reached");
         }
-        for k in ["readonly_call_retried_after_fault", "failed_flush_retried_at_once", "handles_closed_directly_after_fault", "object_of_failed_call_used_afterwards"] {
+        for k in ["readonly_call_retried_after_fault", "failed_flush_retried_at_once", "handles_closed_directly_after_fault", "object_of_failed_call_used_afterwards", "file_of_a_failed_flush_closed_and_judged"] {
             if let Some(n) = r.probes.m.get(k) {
                 out.probes.add(k, *n);
             }
